@@ -183,4 +183,5 @@ def family_member(rng, *, nstates=3, dense=0.35, guards=True, validators=True, n
         opts = [{"rtc": r, "allow": a, "start": "", "budget": 2 if nested else 0}
                 for r in ([True] if has_coro else [True, False]) for a in (False, True)]
     return {"classes": [d], "opts": opts, "gvs": all_gvs(["g1", "g2"]), "evs": evs,
-            "nsends": d["evlist"][:2] if nested else [], "stored": list(stored), "provs": list(provs)}
+            "nsends": d["evlist"][:2] if nested else [], "stored": list(stored), "provs": list(provs),
+            "values": [s["id"] for s in d["states"]] + ["!bad"]}
